@@ -42,6 +42,26 @@ def rebuild_under_writer(rf=3, kill_ms=0, pre_writes=40, snaps=1, kill_src=False
     return s
 
 
+def rebuild_with_failing_copy(rf=3):
+    """the file copy of the rebuild fails (receivers for snapshot data cannot start): the replica must not be
+    promoted; if it is, it must be identical"""
+    victim = rf - 1
+    return [st("replica", r=r) for r in range(rf)] + [
+        st("wait_rw", n=rf, timeout=90), st("write", count=30), st("snapshot", name="s1"), st("write", count=20),
+        st("kill", r=victim), st("write", count=40), st("block_ports"), st("replica", r=victim),
+        st("wait_rw", n=rf, timeout=35, optional=True), st("modes"), st("read_verify"), st("check_identical", n=rf - 1)]
+
+
+def clone_with_stalled_source():
+    """the source replica stops answering before the copy starts: the clone must not be served, or be exact"""
+    return [st("replica", r=0, vol=1), st("wait_rw", vol=1, n=1, timeout=60),
+            st("write", vol=1, count=40), st("snapshot", vol=1, name="base"), st("write", vol=1, count=25),
+            st("stop", r=0),
+            st("clone_replica", r=1, vol=0, src=1, name="base"),
+            st("poll_clone", r=1, vol=0, timeout=42), st("modes", vol=0),
+            st("compare_clone", r=1, src=0, name="base", vol=0, if_rw=True), st("cont", r=0)]
+
+
 def clone_scenario(interrupt=False):
     """source volume (controller 1) with history and snapshot S; a clone replica of a new volume (controller 0)"""
     s = [st("replica", r=0, vol=1), st("wait_rw", vol=1, n=1, timeout=60),
